@@ -1154,6 +1154,9 @@ def r13_11(ctx):
             if a == "splitlines":
                 n += 1
                 ctx.violation(f.fq, short(x), where, f"`{short(x)}` breaks lines at every Unicode line boundary (\\r, \\x0b, \\x0c, \\x85, \\u2028 ...), not only at '\\n': Segment('a\\rb\\n') becomes two lines and the characters it split at are lost")
+            elif a in ("find", "index", "rfind", "rindex") and x.args and isinstance(x.args[0], ast.Constant) and isinstance(x.args[0].value, str):
+                n += 1
+                ctx.check(x.args[0].value == "\n", f.fq, short(x), where, "line boundaries searched as '\\n'", f"`{short(x)}` looks for {x.args[0].value!r} as the line boundary, not for '\\n'")
             elif a in ("partition", "split", "rpartition", "rsplit") and x.args:
                 n += 1
                 sep = x.args[0]
@@ -1162,7 +1165,7 @@ def r13_11(ctx):
             elif a in ("strip", "rstrip", "lstrip") and x.args and isinstance(x.args[0], ast.Constant) and isinstance(x.args[0].value, str) and set(x.args[0].value) - {"\n"}:
                 n += 1
                 ctx.violation(f.fq, short(x), where, f"`{short(x)}` removes characters other than the new line from segment text: carriage returns (and whatever else is listed) vanish from the output")
-    ctx.floor(n, 2, "split primitives in the segment line-splitting functions")
+    ctx.floor(n, 1, "split primitives in the segment line-splitting functions")
 
 
 RULES = [r13_1, r13_2, r13_3, r13_4, r13_5, r13_6, r13_7, r13_8, r13_9, r13_10, r13_11]
